@@ -244,6 +244,16 @@ func opMutations(o ctypes.Operation, thorough bool) []opMut {
 		}
 	}
 	env("round-id-two-characters", func(m *ctypes.Operation) { m.DKGIdentifier = "ab" })
+	env("round-id-with-slash", func(m *ctypes.Operation) { m.DKGIdentifier = "ab/cd-" + m.DKGIdentifier })
+	env("round-id-dot-dot-slash", func(m *ctypes.Operation) { m.DKGIdentifier = "../" + m.DKGIdentifier })
+	add(mutatePayload("batch-id-with-slash", o, func(v interface{}) interface{} {
+		if m, ok := v.(map[string]interface{}); ok {
+			if _, has := m["BatchID"]; has {
+				m["BatchID"] = "2021/03/../../x"
+			}
+		}
+		return v
+	}))
 	env("round-id-empty", func(m *ctypes.Operation) { m.DKGIdentifier = "" })
 	env("round-id-unknown", func(m *ctypes.Operation) { m.DKGIdentifier = "0123456789abcdef0123456789abcdef" })
 	env("operation-id-short", func(m *ctypes.Operation) { m.ID = "x" })
